@@ -1,9 +1,10 @@
 // Package c20 drives the real nodepoolhealth.State and the two lifecycle paths that
 // maintain NodeRegistrationHealthy, and writes what they did as Gallina cases.
-package c20
+package main
 
 import (
 	"fmt"
+	"os"
 	"strings"
 
 	"github.com/awslabs/operatorpkg/object"
@@ -208,7 +209,8 @@ func enumerate(alphabet, length int, f func([]int)) {
 	rec(0)
 }
 
-func Main(args []string) int {
+func main() {
+	args := os.Args[1:]
 	c := kit.Parse("C20", args)
 	tfLen, mixLen, sysLen, nRand := 9, 4, 4, 300
 	if c.Thorough() {
@@ -247,5 +249,4 @@ func Main(args []string) int {
 	c.Meta.Corr = []string{"nodepoolhealth.State.{Update,SetStatus,Status,DryRun} = C20.Model.{tstep,tstatus,dry_run}",
 		"lifecycle.{Registration,Liveness}.updateNodePoolRegistrationHealth + registrationhealth.Reconcile = C20.Model.step"}
 	c.Finish("From KV Require Import C20.Model C20.Check.", "case", "check_all", 1500)
-	return 0
 }
